@@ -280,45 +280,49 @@ pub fn cont_history(rng: &mut Rng, fl: &str, id: &str, nkeys: usize, ncalls: usi
         l.push(format!("new {k} {}", rng.below(5) as i64 - 1));
     }
     l.push(if rng.chance(30) { format!("g.newcap 0 {}", rng.below(9)) } else { "g.new 0".into() });
-    let mut members: Vec<usize> = vec![];
+    // a second container holds some of the same nodes: whatever is done through one is visible through the other
+    l.push("g.new 1".into());
+    let mut members_of: Vec<Vec<usize>> = vec![vec![], vec![]];
     for _ in 0..ncalls {
         let k = rng.below(nkeys);
         let r = rng.below(100);
+        let gs = if rng.chance(25) { 1 } else { 0 };
+        let members = &mut members_of[gs];
         if r < 18 {
-            l.push(format!("g.insert 0 {k}"));
+            l.push(format!("g.insert {gs} {k}"));
             if !members.contains(&k) {
                 members.push(k);
             }
         } else if r < 24 {
-            l.push(format!("g.insert_dup 0 {k} {}", 50 + rng.below(5)));
+            l.push(format!("g.insert_dup {gs} {k} {}", 50 + rng.below(5)));
         } else if r < 32 {
-            l.push(format!("g.remove 0 {k}"));
+            l.push(format!("g.remove {gs} {k}"));
             members.retain(|x| *x != k);
         } else if r < 40 {
-            l.push(format!("g.get 0 {k}"));
+            l.push(format!("g.get {gs} {k}"));
         } else if r < 45 {
             if members.contains(&k) || rng.chance(4) {
-                l.push(format!("g.index 0 {k}"));
+                l.push(format!("g.index {gs} {k}"));
             }
         } else if r < 50 {
-            l.push(format!("g.contains 0 {k}"));
+            l.push(format!("g.contains {gs} {k}"));
         } else if r < 54 {
-            l.push("g.len 0".into());
-            l.push("g.is_empty 0".into());
+            l.push(format!("g.len {gs}"));
+            l.push(format!("g.is_empty {gs}"));
         } else if r < 60 {
-            l.push("g.to_vec 0".into());
+            l.push(format!("g.to_vec {gs}"));
         } else if r < 64 {
-            l.push("g.iter 0".into());
+            l.push(format!("g.iter {gs}"));
         } else if r < 72 {
             if directed {
-                l.push(["g.roots 0", "g.leaves 0", "g.orphans 0"][rng.below(3)].into());
+                l.push(format!("{} {gs}", ["g.roots", "g.leaves", "g.orphans"][rng.below(3)]));
             } else {
-                l.push("g.orphans 0".into());
+                l.push(format!("g.orphans {gs}"));
             }
         } else if r < 80 {
             let v = rng.below(nkeys);
             if members.contains(&k) && members.contains(&v) {
-                l.push(format!("g.connect 0 {k} {v} {}", rng.below(4)));
+                l.push(format!("g.connect {gs} {k} {v} {}", rng.below(4)));
                 l.push("dump".into());
             } else {
                 l.push(format!("connect {k} {v} {}", rng.below(4)));
@@ -328,16 +332,17 @@ pub fn cont_history(rng: &mut Rng, fl: &str, id: &str, nkeys: usize, ncalls: usi
         } else if r < 88 {
             l.push(format!("isolate {k}"));
         } else if r < 90 {
-            l.push("g.sz 0".into());
+            l.push(format!("g.sz {gs}"));
             l.push(format!("sz {k}"));
         } else if r < 94 {
-            l.push("g.to_dot 0".into());
+            l.push(format!("g.to_dot {gs}"));
         } else {
-            l.push(format!("g.to_dot_attr 0 {}", rng.below(3)));
+            l.push(format!("g.to_dot_attr {gs} {}", rng.below(3)));
         }
     }
     l.push("dump".into());
     l.push("g.iter 0".into());
+    l.push("g.iter 1".into());
     l
 }
 
